@@ -237,7 +237,7 @@ def run_dm(case):
         return deco
 
     ns = {'Generic': Generic, 'GenericMixin': GenericMixin, 'WithDecoratedMethods': WDM, '_ENUM': ENUM, '_D': decos, '_tag': tag,
-          '_Carrier': Carrier, '_mem': mem, '_TV': TV, '_ARGS': ARGS}
+          '_Carrier': Carrier, '_cached_property': functools.cached_property, '_mem': mem, '_TV': TV, '_ARGS': ARGS}
 
     def deco_line(d):
         return f'    @_D[({d[0]}, {d[2]!r})]({d[1]!r})\n'
@@ -259,13 +259,15 @@ def run_dm(case):
                 src += deco_line(dd)
             if k in ('class', 'static'):
                 src += '    @classmethod\n' if k == 'class' else '    @staticmethod\n'
+            if k == 'cprop_raise':
+                src += '    @_cached_property\n'
             if k in ('prop', 'prop_raise'):
                 src += '    @property\n'
             for dd in reversed(d.get('inner', [])):
                 src += deco_line(dd)
             src += f'    @_tag({d["id"]})\n'
             params = 'cls' if k == 'class' else ('' if k == 'static' else 'self')
-            if k == 'prop_raise':
+            if k in ('prop_raise', 'cprop_raise'):
                 src += f'    def {d["name"]}({params}):\n        raise ValueError("getter fails")\n'
             elif k == 'prop':
                 src += f'    def {d["name"]}({params}):\n        return {d["val"]!r}\n'
